@@ -4,7 +4,7 @@ import os
 import re
 import vlib
 
-PROPS = ['Rangers.Props.C10', 'Rangers.Props.C10B', 'Rangers.Props.C10M', 'Rangers.Props.C10R', 'Rangers.Props.C10T']
+PROPS = ['Rangers.Props.C10', 'Rangers.Props.C10B', 'Rangers.Props.C10M', 'Rangers.Props.C10R', 'Rangers.Props.C10G', 'Rangers.Props.C10T']
 DRIVERS = ['C10']
 GENERATED = os.path.join(vlib.LEAN, 'Rangers', 'Generated', 'Evm10JumpTable.lean')
 MODEL_TABLE = os.path.join(vlib.LEAN, 'Rangers', 'Model', 'Evm10Table.lean')
@@ -72,7 +72,16 @@ def correspond(ctx):
         c['violations'].append(dict(key='panic-in-computational-opcode', desc='the EVM panicked: ' + p['impl'],
                                     replay=dict(op=p['op'], impl=p['impl'],
                                                 cmd='harness/bin/c10 mode=line line="%s"' % p['op'])))
-    return [c]
+    res = [c]
+    # isCode/validJumpdest with their caches need hook H6c; run that stream only where the hook exists
+    if os.path.exists(os.path.join(ctx.repo, 'src', 'vm', 'verif_c10_jdsession.go')):
+        j = vlib.correspond(ctx, 'c10jd', 'C10', [], timeout=600)
+        j['name'] = 'jumpdest-caches'
+        res.append(j)
+    else:
+        res.append(dict(name='jumpdest-caches', ok=True, ops=0, mismatches=0, unmodelled=0,
+                        errors=[], skipped='hook H6c (src/vm/verif_c10_jdsession.go) is not in this tree'))
+    return res
 
 
 def search(ctx, hints):
